@@ -16,23 +16,29 @@ Hypotheses (`ConcHyp cmp t puts reads`): `cmp` a strict weak order; the node obj
 distinct; goroutine `j < puts.length` executes `Put k_j v_j`, the `k_j` pairwise inequivalent and
 present in `t`; the other goroutines are readers: `Get` / `Contains` of keys inequivalent to every `k_j`,
 and **range readers** — `Range` / `RangeReverse` / `Iterate` (`Op.scan`, built from the bounds by the two
-regenerated `switch` tables: `scanOf`) followed by any number of `Next` calls — such that every key stored
-in `t` that the iterator's in-range predicate accepts is inequivalent to every `k_j`. `m` is any memory
-that holds `t` (`Rep m t`; `memOf t` is one: `memOf_rep`).
+regenerated `switch` tables: `scanOf`, `scanOf_bounds`) followed by any number of `Next` calls — such that
+every key stored in `t` that lies inside **both** bounds of the reader is inequivalent to every `k_j`
+(with range readers present `t` satisfies the tree invariant: balanced, strictly sorted — every tree
+reachable from the empty one does). `m` is any memory that holds `t` (`Rep m t`) including its parent
+pointers and zero key slots behind the live prefixes (`AuxRep m t`); `memOf t` is one: `memOf_rep`,
+`memOf_auxRep`.
 
 The range reader is modelled access by access (`Model.BTreeAccess.itNext`): seek, and per `Next` the `lost()`
 check, the in-range test on the remembered key, **then** the value read, then the cursor move through
-child and parent pointers. That it reads no value slot but those of in-range keys rests on the statement
-order of `forwardIterator.Next` / `backwardIterator.Next` (test before `valueUnchecked()`) and on
+child and parent pointers. Two things make it race free. (1) It reads no value slot beyond its *far* bound:
+the statement order of `forwardIterator.Next` / `backwardIterator.Next` (test before `valueUnchecked()`) and
 `cursor.Next` / `Prev` reading keys only — pinned literally by `scanShape_eq`. (Before the repair of defect
-D18 the value of the first key *beyond* the far bound was read: a race with a `Put` to that key.)
+D18 the value of the first key *beyond* the far bound was read: a race with a `Put` to that key.) (2) It
+never visits a key before its *near* bound: `Proofs/TreeAccessScan.lean` shows the machine, program point by
+program point, in the middle of computing the functional cursor functions of `Model.BTree` (`find`,
+`leftmostLeaf`, `rightmostLeaf`, `nextCore` / `prevCore` — the climb through `parent` pointers and
+`xslices.Index` against `climbNext` over `pathTo` frames) on the frozen skeleton (`scanInv_next`), so every
+position whose value it reads is a position of the functional iteration, which C01's seek and successor
+theorems (`seekFwd_spec`, `advance`, …) place inside the near bound.
 
-PARTIAL for range readers in one respect (`…_partial` below): the hypothesis speaks about every stored key
-that passes the *far*-bound predicate, not only those that are also inside the *near* bound — that the
-cursor never visits a key before its near bound is a fact about the navigation (seek lands inside, moves go
-forward) that is proved for the functional model (`Props/C01.lean`, `Props/C02.lean`) but not re-proved at
-access level. For `Get`/`Contains` readers, and for range readers all of whose Puts lie beyond the far
-bound, the statement is at full strength.
+Not claimed: termination of range readers and that their items equal the sequential ones (only
+`Get`/`Contains` results are), several operations per goroutine, iterators created before the concurrent
+phase (stale cursor generation: the re-seek is `unmodelled`).
 
 What stays trusted for the sentence as a statement about Go: the Go memory model — a program whose
 conflicting plain accesses are all ordered by happens-before is data-race free and sequentially
@@ -49,44 +55,63 @@ variable {K V : Type}
 /-- **No interleaving has a data race.** In every configuration reachable from the initial one no two
 goroutines are about to access the same location with at least one of them writing. -/
 theorem concurrent_puts_race_free (cmp : K → K → Int) (t : Tree K V) (puts : List (K × V)) (reads : List (Op K V))
-    (h : ConcHyp cmp t puts reads) (m : Mem K V) (hm : Rep m t) (c : Config K V)
+    (h : ConcHyp cmp t puts reads) (m : Mem K V) (hm : Rep m t) (hx : AuxRep m t) (c : Config K V)
     (hr : Reach cmp (goroutines puts reads) (initial m (goroutines puts reads)) c) : ¬ Race c :=
-  cinv_no_race (setup_of_hyp h) (reach_inv (setup_of_hyp h) hm hr)
+  cinv_no_race (setup_of_hyp h) (reach_inv (setup_of_hyp h) hm hx hr)
 
-/-- **Range readers, spelled out** (the statement above for readers given by their bounds). `Range(lo, hi)` /
-`RangeReverse(lo, hi)` readers (any bounds, zero `Bound{}` excepted; `Iterate` is `Range(Unbounded, Unbounded)`),
-each calling `Next` any number of times, concurrent with Puts of present, pairwise inequivalent keys: no data
-race in any interleaving, provided every key of `t` accepted by a reader's far bound is inequivalent to every
-written key.
-
-Full statement (not proved): "… provided every key of `t` *inside both bounds* of a reader is inequivalent to
-every written key." Missing: at access level, that a cursor never visits a key before its near bound. -/
-theorem concurrent_range_readers_race_free_partial (cmp : K → K → Int) (t : Tree K V) (puts : List (K × V))
+/-- **Range readers, spelled out by their bounds.** `Range(lo, hi)` / `RangeReverse(lo, hi)` readers (`rev`; any of the 3×3
+bound kinds, `Iterate` is `Range(Unbounded, Unbounded)`), each calling `Next` any number of times (`n`; a reader may
+abandon its iterator), concurrent with Puts of present, pairwise inequivalent keys on a tree satisfying the tree
+invariant: **no interleaving has a data race, provided every key of `t` inside the bounds of a reader — `aboveLo lo`
+and `belowHi hi`, the interval of C01's ideal `srange` — is inequivalent to every written key.** -/
+theorem concurrent_range_readers_race_free (cmp : K → K → Int) (t : Tree K V) (puts : List (K × V))
     (bounds : List (Bool × Bound K × Bound K × Nat)) (reads : List (Op K V))
     (hb : bounds.map (fun b => scanOf b.1 b.2.1 b.2.2.1 b.2.2.2) = reads.map some)
-    (hsw : StrictWeak cmp) (hn : (ids t.root).Nodup) (hd : puts.Pairwise fun p q => cmp p.1 q.1 ≠ 0)
+    (hsw : StrictWeak cmp) (hinv : Inv cmp t) (hd : puts.Pairwise fun p q => cmp p.1 q.1 ≠ 0)
     (hp : ∀ p ∈ puts, contains cmp t p.1 = true)
-    (hk : ∀ r ∈ reads, ∀ p ∈ puts, ∀ k' ∈ storedKeys t.root, inRangeOf cmp r k' = true → cmp p.1 k' ≠ 0)
-    (m : Mem K V) (hm : Rep m t) (c : Config K V)
+    (hk : ∀ b ∈ bounds, ∀ p ∈ puts, ∀ k' ∈ storedKeys t.root,
+      aboveLo cmp b.2.1 k' = true → belowHi cmp b.2.2.1 k' = true → cmp p.1 k' ≠ 0)
+    (m : Mem K V) (hm : Rep m t) (hx : AuxRep m t) (c : Config K V)
     (hr : Reach cmp (goroutines puts reads) (initial m (goroutines puts reads)) c) : ¬ Race c := by
-  have hscan : ∀ r ∈ reads, r.isSearch = false ∧ r.isPut = false := by
+  -- every reader is what `scanOf` makes of some bounds
+  have hscan : ∀ r ∈ reads, ∃ b ∈ bounds, scanOf b.1 b.2.1 b.2.2.1 b.2.2.2 = some r := by
     intro r hr
     have hmem : some r ∈ reads.map some := List.mem_map.mpr ⟨r, hr, rfl⟩
     rw [← hb] at hmem
-    obtain ⟨b, _, hbe⟩ := List.mem_map.mp hmem
-    simp only [scanOf] at hbe
-    repeat' split at hbe
-    all_goals first | (cases hbe; exact ⟨rfl, rfl⟩) | cases hbe
-  exact concurrent_puts_race_free cmp t puts reads
-    ⟨hsw, hn, hd, hp, fun r hm' => (hscan r hm').2,
-      fun r hm' hs' => absurd hs' (by rw [(hscan r hm').1]; decide),
-      fun r hm' _ => hk r hm'⟩ m hm c hr
+    obtain ⟨b, hbm, hbe⟩ := List.mem_map.mp hmem
+    exact ⟨b, hbm, hbe⟩
+  have hfacts : ∀ r ∈ reads, r.isSearch = false ∧ r.isPut = false ∧ ScanWF r ∧
+      ∃ b ∈ bounds, ∀ k, (inRangeOf cmp r k && nearOp cmp r k) = (aboveLo cmp b.2.1 k && belowHi cmp b.2.2.1 k) := by
+    intro r hr
+    obtain ⟨b, hbm, hbe⟩ := hscan r hr
+    have hl : b.2.1.kind ≠ none := by
+      intro h; simp [scanOf, h] at hbe
+      cases hbb : b.1 <;> simp [hbb, rangeSeek, rrangeSeek, rangeStop, rrangeStop, pickSide, h] at hbe
+      all_goals (repeat' split at hbe) <;> simp_all
+    have hh : b.2.2.1.kind ≠ none := by
+      intro h; simp [scanOf, h] at hbe
+      cases hbb : b.1 <;> simp [hbb, rangeSeek, rrangeSeek, rangeStop, rrangeStop, pickSide, h] at hbe
+      all_goals (repeat' split at hbe) <;> simp_all
+    obtain ⟨r', hr', h1, h2, h3⟩ := scanOf_bounds hsw b.1 b.2.1 b.2.2.1 b.2.2.2 hl hh
+    rw [hbe] at hr'
+    cases hr'
+    exact ⟨h1, Op.isPut_of_not_search h1, h2, b, hbm, h3⟩
+  refine concurrent_puts_race_free cmp t puts reads
+    ⟨hsw, hinv.ids.1, hd, hp, fun r hm' => (hfacts r hm').2.1,
+      fun r hm' hs' => absurd hs' (by rw [(hfacts r hm').1]; decide),
+      ?_, fun r hm' _ => (hfacts r hm').2.2.1, fun _ => hinv⟩ m hm hx c hr
+  intro r hm' _ p hpm k' hk' hin hnear
+  obtain ⟨_, _, _, b, hbm, hbk⟩ := hfacts r hm'
+  have := hbk k'
+  rw [hin, hnear] at this
+  simp only [Bool.and_self, Bool.true_eq, Bool.and_eq_true] at this
+  exact hk b hbm p hpm k' hk' this.1 this.2
 
 /-- **What a range reader reads.** In every reachable configuration, the next access of a range reader is a read,
 and if it is a read of a value slot `(x, i)` that is a live slot of the tree, the key stored there is accepted by
 the reader's in-range predicate: the value of the first key beyond the far bound is never read (only its key). -/
 theorem range_reader_reads_in_range_values_only (cmp : K → K → Int) (t : Tree K V) (puts : List (K × V))
-    (reads : List (Op K V)) (h : ConcHyp cmp t puts reads) (m : Mem K V) (hm : Rep m t) (c : Config K V)
+    (reads : List (Op K V)) (h : ConcHyp cmp t puts reads) (m : Mem K V) (hm : Rep m t) (hx : AuxRep m t) (c : Config K V)
     (hr : Reach cmp (goroutines puts reads) (initial m (goroutines puts reads)) c) :
     ∀ (j : Nat) op pc a, (goroutines puts reads)[j]? = some op → op.isSearch = false → c.pcs[j]? = some pc →
       accessOf pc = some a →
@@ -94,7 +119,7 @@ theorem range_reader_reads_in_range_values_only (cmp : K → K → Int) (t : Tre
         ∀ y, Sub t.root y → y.id = x → ∀ hlt : i < y.kvs.length, inRangeOf cmp op y.kvs[i].1 = true := by
   intro j op pc a ho hns hp ha
   have hs := setup_of_hyp h
-  have hi := reach_inv hs hm hr
+  have hi := reach_inv hs hm hx hr
   rcases access_class (hs.ok j op ho) (hi.good j op pc ho hp) ha with ⟨hw, hno⟩ | ⟨x, i, hloc, hsk, hw⟩
   · exact ⟨hw, fun x i hl => absurd hl (hno x i)⟩
   · refine ⟨by rw [hw]; exact Op.isPut_of_not_search hns, fun x' i' hl => ?_⟩
@@ -110,13 +135,13 @@ executed from the initial configuration, the steps taken by the `Put` / `Get` / 
 `#goroutines * (wt t + 4)` (`wt` = 2·entries + 6 per node) — however long the range readers go on. `Reach` and
 executable schedules are the same thing. -/
 theorem concurrent_runs_terminate (cmp : K → K → Int) (t : Tree K V) (puts : List (K × V)) (reads : List (Op K V))
-    (h : ConcHyp cmp t puts reads) (m : Mem K V) (hm : Rep m t) :
+    (h : ConcHyp cmp t puts reads) (m : Mem K V) (hm : Rep m t) (hx : AuxRep m t) :
     (∀ sched c, runSched cmp (goroutines puts reads) (initial m (goroutines puts reads)) sched = some c →
       searchSteps (goroutines puts reads) sched ≤ (goroutines puts reads).length * (wt t.root + 4)) ∧
     (∀ c, Reach cmp (goroutines puts reads) (initial m (goroutines puts reads)) c ↔
       ∃ sched, runSched cmp (goroutines puts reads) (initial m (goroutines puts reads)) sched = some c) := by
   refine ⟨fun sched c hs => ?_, fun c => ⟨sched_of_reach, fun ⟨s, hs⟩ => reach_of_sched s _ _ hs⟩⟩
-  have := (sched_bound (setup_of_hyp h) sched _ c (cinv_initial hm) hs).1
+  have := (sched_bound (setup_of_hyp h) sched _ c (cinv_initial (setup_of_hyp h) hm hx) hs).1
   have := total_initial t (goroutines puts reads) m
   omega
 
@@ -128,7 +153,7 @@ well-formed `t` the contents are those of the ideal sorted map after `sput k_j v
 (each `k_j ↦ v_j`, everything else unchanged). In a configuration in which nobody can move every `Put` / `Get` /
 `Contains` has returned its sequential result. -/
 theorem concurrent_puts_all_take_effect (cmp : K → K → Int) (t : Tree K V) (puts : List (K × V))
-    (reads : List (Op K V)) (h : ConcHyp cmp t puts reads) (m : Mem K V) (hm : Rep m t) (c : Config K V)
+    (reads : List (Op K V)) (h : ConcHyp cmp t puts reads) (m : Mem K V) (hm : Rep m t) (hx : AuxRep m t) (c : Config K V)
     (hr : Reach cmp (goroutines puts reads) (initial m (goroutines puts reads)) c) :
     (Terminal cmp (goroutines puts reads) c → PutsDone (goroutines puts reads) c ∧
       ∀ (i : Nat) op, (goroutines puts reads)[i]? = some op → op.isSearch = true →
@@ -139,7 +164,7 @@ theorem concurrent_puts_all_take_effect (cmp : K → K → Int) (t : Tree K V) (
         t'.gen = t.gen ∧ t'.size = t.size ∧ skel t'.root = skel t.root ∧
         (WF cmp t → WF cmp t' ∧ toList t'.root = puts.foldl (fun l p => sput cmp p.1 p.2 l) (toList t.root))) := by
   have hs := setup_of_hyp h
-  have hi := reach_inv hs hm hr
+  have hi := reach_inv hs hm hx hr
   have hrd : ∀ r ∈ reads, r.isPut = false := h.readers
   have hpres : ∀ p ∈ puts, (slotOf cmp p.1 t.root).isSome = true := by
     intro p hp; rw [slotOf_isSome]; exact h.present p hp
@@ -157,14 +182,14 @@ returned what the operation returns when run alone on `t`: a `Get k` the value `
 (`get cmp t k`; for a well-formed `t` that is the ideal sorted map's value, `get_refines`), a `Contains k`
 whether `k` is in `t`. (The Puts concurrent with it never change what it reads.) -/
 theorem concurrent_reads_see_sequential_values (cmp : K → K → Int) (t : Tree K V) (puts : List (K × V))
-    (reads : List (Op K V)) (h : ConcHyp cmp t puts reads) (m : Mem K V) (hm : Rep m t) (c : Config K V)
+    (reads : List (Op K V)) (h : ConcHyp cmp t puts reads) (m : Mem K V) (hm : Rep m t) (hx : AuxRep m t) (c : Config K V)
     (hr : Reach cmp (goroutines puts reads) (initial m (goroutines puts reads)) c) :
     ∀ (i : Nat) op r, (goroutines puts reads)[i]? = some op → op.isSearch = true → c.pcs[i]? = some (PC.done r) →
       r = expected cmp t op ∧
       (∀ k, op = .get k → r = .val (get cmp t k) ∧
         (WF cmp t → r = .val ((sget cmp k (toList t.root)).map (·.2)))) := by
   intro i op r ho hsr hp
-  have hi := reach_inv (setup_of_hyp h) hm hr
+  have hi := reach_inv (setup_of_hyp h) hm hx hr
   have hg : r = expected cmp t op := hi.good i op _ ho hp hsr
   refine ⟨hg, ?_⟩
   rintro k rfl
@@ -175,23 +200,25 @@ theorem concurrent_reads_see_sequential_values (cmp : K → K → Int) (t : Tree
   unfold Juniper.Model.BTree.get
   rw [lookup_refines h.sw k t.root hh hbal hw.sorted]
 
-/-! ## non-vacuity: a well-formed two-level tree, two writers, four readers
+/-! ## non-vacuity: a well-formed two-level tree, two writers, five readers
 
 `exTree` = keys 10 … 70 | 80 | 90 … 150 on two levels (`exTree_wf : WF exCmp exTree`), writers `exPuts` = `80 ↦ 801`
 (the separator in the root) and `120 ↦ 1201`, readers `exReads` = `Get 90` (same leaf as a written key),
 `Contains 85` (absent), `Range(Unbounded, Excluded 80)` (`exRange`: keys 10 … 70; the first key beyond its far bound is
-the written key 80, reached by climbing to the root) and `RangeReverse(Excluded 120, Unbounded)` (`exRangeRev`: 150, 140,
-130; the first key beyond is the written key 120 in the same leaf); `exRange_eq`: these are what `scanOf` makes of
+the written key 80, reached by climbing to the root), `Range(Included 90, Included 110)` (`exMid`: 90, 100, 110 *between* the
+written keys: 80 before its near bound, 120 the first key beyond its far bound) and `RangeReverse(Excluded 120, Unbounded)`
+(`exRangeRev`: 150, 140, 130; the first key beyond is the written key 120 in the same leaf); `exRange_eq`: these are what `scanOf` makes of
 the bounds; `exHyp : ConcHyp …` (all in `Proofs/TreeAccessExample.lean`). -/
 
-set_option maxRecDepth 8000 in
-/-- an interleaving in which both writers and all readers overlap, run to the end (120 accesses): no race on the way
+set_option maxRecDepth 12000 in
+/-- an interleaving in which both writers and all readers overlap, run to the end (152 accesses): no race on the way
 (checked on every prefix by the theorem, here on the final configuration by evaluation), everybody has
-returned, the final memory holds `80 ↦ 801`, `120 ↦ 1201`, the readers saw `900`, `false`, the values of 10 … 70 and
-of 150, 140, 130. -/
+returned, the final memory holds `80 ↦ 801`, `120 ↦ 1201`, the readers saw `900`, `false`, the values of 10 … 70, of
+90, 100, 110 and of 150, 140, 130. -/
 example : ∃ c, runSched exCmp (goroutines exPuts exReads) (initial (memOf exTree) (goroutines exPuts exReads)) exSched = some c ∧
     c.pcs.map exResult = [some .unit, some .unit, some (.val (some 900)), some (.bool false),
       some (.vals [some 100, some 200, some 300, some 400, some 500, some 600, some 700]),
+      some (.vals [some 900, some 1000, some 1100]),
       some (.vals [some 1500, some 1400, some 1300])] ∧
     hasRace c = false ∧
     c.mem.val 2 0 = some 801 ∧ c.mem.val 1 3 = some 1201 ∧ c.mem.val 1 0 = some 900 ∧ c.mem.gen = 15 ∧ c.mem.size = 15 := by
@@ -202,13 +229,14 @@ example : ∃ c, runSched exCmp (goroutines exPuts exReads) (initial (memOf exTr
 being terminal — holds the sequential result. -/
 example : ∀ c, runSched exCmp (goroutines exPuts exReads) (initial (memOf exTree) (goroutines exPuts exReads)) exSched = some c →
     ¬ Race c :=
-  fun c hc => concurrent_puts_race_free exCmp exTree exPuts exReads exHyp _ (memOf_rep exTree exTree_nodup) c
+  fun c hc => concurrent_puts_race_free exCmp exTree exPuts exReads exHyp _ (memOf_rep exTree exTree_nodup) (memOf_auxRep exTree exTree_nodup) c
     (reach_of_sched exSched _ c hc)
 
 set_option maxRecDepth 8000 in
-/-- the value slots the two range readers read, run alone: those of 10 … 70 (node 0) resp. 150, 140, 130 (node 1, slots
-6, 5, 4) — not `(2, 0)` (key 80) resp. `(1, 3)` (key 120), whose *keys* they do read. -/
+/-- the value slots the three range readers read, run alone: those of 10 … 70 (node 0), of 90, 100, 110 (node 1, slots 0, 1, 2)
+resp. of 150, 140, 130 (node 1, slots 6, 5, 4) — never `(2, 0)` (key 80) or `(1, 3)` (key 120), whose *keys* they do read. -/
 example : exValReads exRange = (List.range 7).map (fun i => Loc.node 0 (.val i)) ∧
+    exValReads exMid = [.node 1 (.val 0), .node 1 (.val 1), .node 1 (.val 2)] ∧
     exValReads exRangeRev = [.node 1 (.val 6), .node 1 (.val 5), .node 1 (.val 4)] := by decide
 
 /-! ## the hypothesis "already present" is needed -/
